@@ -122,7 +122,7 @@ impl PkeSealingVersion for V1 {
         let ak = mac.finalize().into_bytes();
 
         let mut edk = key.0;
-        ctr::Ctr64BE::<aes::Aes256>::new(&ek, &n).apply_keystream(&mut edk);
+        ctr::Ctr128BE::<aes::Aes256>::new(&ek, &n).apply_keystream(&mut edk);
 
         let mut tag = hmac::Hmac::<sha2::Sha384>::new_from_slice(&ak).unwrap();
         tag.update(b"k1.seal.");
@@ -188,7 +188,7 @@ impl PkeUnsealingVersion for V1 {
         #[cfg(paseto_verif)]
         let n = generic_array::GenericArray::from(paseto_core::verif::counter_override(n.into()));
 
-        ctr::Ctr64BE::<aes::Aes256>::new(&ek, &n).apply_keystream(edk);
+        ctr::Ctr128BE::<aes::Aes256>::new(&ek, &n).apply_keystream(edk);
 
         Ok(LocalKey(*edk))
     }
